@@ -792,8 +792,6 @@ def decorate_with_checker(func: CallableT) -> CallableT:
     # Determine the default argument values
     kwdefaults = resolve_kwdefaults(sign=sign)
 
-    id_func = id(func)
-
     # (mristin, 2021-02-16)
     # Admittedly, this branching on sync/async is absolutely monstrous.
     # However, I couldn't find out an easier way to refactor the code so that it supports async.
@@ -964,6 +962,11 @@ def decorate_with_checker(func: CallableT) -> CallableT:
 
     # Copy __doc__ and other properties so that doctests can run
     functools.update_wrapper(wrapper=wrapper, wrapped=func)
+
+    # The checker, and not the function, is marked as in progress: the same function can be wrapped by several
+    # checkers with different contracts, and evaluating the contracts of one of them must not disable the others.
+    # (The wrappers above look this variable up only when they are called.)
+    id_func = id(wrapper)
 
     assert not hasattr(
         wrapper, "__preconditions__"
